@@ -399,7 +399,7 @@ impl PatternFusion for ReduceMeanAxesFusion {
         Ok(ReduceMean {
             axes: Some(axes.to_vec()),
             keep_dims: mean_op.keep_dims,
-            noop_with_empty_axes: false,
+            noop_with_empty_axes: mean_op.noop_with_empty_axes,
         })
     }
 }
@@ -1276,11 +1276,15 @@ impl FusionVisitor for ShapeSliceToConstant {
             return Err(FusionError::CheckFailed("wrong output count"));
         };
 
+        // Give the constant the name of the value it replaces, so that the
+        // value can still be looked up by name (eg. if it is a graph output).
+        let output_name = graph.get_node(output_id).and_then(|n| n.name());
+
         Ok(Fusion::Constant {
             input_ids: [x_id].into(),
             output_id,
             value: ConstantNode::new(
-                op_node.name(),
+                output_name.or(op_node.name()),
                 ConstantNodeData::Arc(ArcTensor::from_data(&[dims.len()], Arc::new(dims))),
             )
             .into(),
